@@ -369,7 +369,7 @@ pub fn long_strings(want: &[&str], tier: Tier) -> Part {
 /// its real SYN-ACK / ACK / SYN are encoded by the real encoder and read by the independent one.
 pub fn real_emissions(want: &[&str], tier: Tier, deadline: Instant) -> Part {
     let mut part = Part::new("wire/real-emissions");
-    part.rule = "a real node owning 0..4 keys whose key/value lengths run over the length classes (three contents; all statuses) answers a real SYN: its SYN, SYN-ACK and ACK are serialized by the real encoder; the independent decoder must read exactly the in-memory message (message view), serialized_len() must equal the bytes written, and real decode(real encode(m)) == m; non-trivial = emitted messages whose delta carries at least one key-value".into();
+    part.rule = "a real node owning 0..4 keys whose key/value lengths run over the length classes (three contents; all statuses), or 64..3,000 (thorough 20,000) entries whose operation stream is up to ~10 MB (thorough ~30 MB, filling the datagram) before compression, answers a real SYN: its SYN, SYN-ACK and ACK are serialized by the real encoder; the independent decoder must read exactly the in-memory message (message view), serialized_len() must equal the bytes written, and real decode(real encode(m)) == m; non-trivial = emitted messages whose delta carries at least one key-value".into();
     let contents = [Content::Repeat, Content::Full7, Content::Mixed];
     let lens: Vec<usize> = if tier == Tier::Quick { vec![0, 1, 255, 256, 16_383, 16_384, 16_385, 40_000] } else { LEN_CLASSES.to_vec() };
     // cases: (content, [(klen, vlen, status)])
@@ -392,7 +392,17 @@ pub fn real_emissions(want: &[&str], tier: Tier, deadline: Instant) -> Part {
             }
         }
     }
-    part.bounds = json!({"cases": cases.len(), "length_classes": lens});
+    // many entries in one delta: streams of many blocks, up to tens of MB uncompressed in one datagram
+    // (a block of a repeated character shrinks to a few dozen bytes)
+    let bulk: Vec<(Content, usize, usize)> = if tier == Tier::Quick {
+        vec![(Content::Repeat, 64, 16_000), (Content::Repeat, 600, 16_000), (Content::Repeat, 3_000, 270), (Content::Mixed, 300, 270), (Content::Full7, 300, 100)]
+    } else {
+        vec![(Content::Repeat, 64, 16_000), (Content::Repeat, 600, 16_000), (Content::Repeat, 2_500, 16_000), (Content::Repeat, 3_000, 270), (Content::Repeat, 20_000, 100), (Content::Mixed, 300, 270), (Content::Mixed, 2_000, 270), (Content::Full7, 300, 100), (Content::Full7, 2_000, 40)]
+    };
+    for (c, n, vl) in bulk {
+        cases.push((c, (0..n).map(|i| (5, vl, if c == Content::Repeat { 0 } else { (i % 3) as u8 })).collect()));
+    }
+    part.bounds = json!({"cases": cases.len(), "length_classes": lens, "bulk_cases": "entries x value length: 64x16000, 600x16000, 3000x270 (repeated character), 300x270 (mixed), 300x100 (7-bit); thorough adds 2500x16000, 20000x100, 2000x270, 2000x40"});
     let capped = std::sync::atomic::AtomicBool::new(false);
     let results: Vec<(Tally, Vec<Viol>)> = cases
         .par_iter()
@@ -437,7 +447,11 @@ pub fn real_emissions(want: &[&str], tier: Tier, deadline: Instant) -> Part {
                     }
                     _ => ns.set_with_ttl(&key, &val),
                 }
-                shape.push(json!({"key_len": key.len(), "value_len": vl, "status": st}));
+                if kvs.len() <= 8 {
+                    shape.push(json!({"key_len": key.len(), "value_len": vl, "status": st}));
+                } else if i == 0 {
+                    shape.push(json!({"entries": kvs.len(), "value_len": vl}));
+                }
             }
             let replay = json!({"engine":"wire","direction":"real-encoder->independent-decoder","content":format!("{content:?}"),"owner_entries":shape});
             let peer = Id::v4("peer", 1, 10_002);
@@ -492,6 +506,11 @@ pub fn real_emissions(want: &[&str], tier: Tier, deadline: Instant) -> Part {
                         if d.blocks.compressed + d.blocks.raw > 1 {
                             t.inc("with_several_blocks");
                         }
+                        if std::env::var("CCMC_WIRE_DEBUG").is_ok() && kvs.len() > 8 {
+                            eprintln!("bulk {:?} n={} vl={} -> {} kind {} blocks {} uncompressed {} bytes {}", content, kvs.len(), kvs[0].1, view.kind(), d.msg.ops().len(), d.blocks.compressed + d.blocks.raw, d.blocks.uncompressed_len, bytes.len());
+                        }
+                        t.max("max_blocks_in_one_stream", (d.blocks.compressed + d.blocks.raw) as u64);
+                        t.max("max_uncompressed_stream_bytes", d.blocks.uncompressed_len as u64);
                         if d.blocks.raw > 0 {
                             t.inc("with_raw_block");
                         }
